@@ -554,7 +554,7 @@ func genBlocks(r *core.Rand) (string, bool) {
 	g.add("da")
 	g.add("ro")
 	g.add("da")
-	return g.line(pickMaxCache(r)), true
+	return toAdm(g.line(pickMaxCache(r))), true
 }
 
 // genFaultFamily: one base history; a fault of one kind is armed before a
@@ -848,4 +848,41 @@ func genLifecycle(r *core.Rand, emit func(class string, line string)) {
 		add("da")
 		emit("key-lifecycle", "C05 db 1000000 100000000 "+strings.Join(ops, " "))
 	}
+}
+
+// toAdm turns a history that contains an injected fault, a crash restart or an
+// image capture into an admissibility line ("dbf"): what is compared is
+// membership of the implementation's answers in the set the property admits,
+// and only user-level observations are made (no file layout, no write cursor).
+func toAdm(line string) string {
+	f := strings.Fields(line)
+	if len(f) < 3 || f[1] != "db" {
+		return line
+	}
+	need := false
+	for _, t := range f[4:] {
+		if strings.HasPrefix(t, "ft:") || strings.HasPrefix(t, "ti:") || strings.HasPrefix(t, "tis:") ||
+			t == "cp" || t == "cps" || strings.HasPrefix(t, "cp:") || strings.HasPrefix(t, "cps:") {
+			need = true
+		}
+	}
+	if !need {
+		return line
+	}
+	out := []string{"C05", "dbf", f[2], f[3]}
+	for _, t := range f[4:] {
+		switch {
+		case t == "wc" || strings.HasPrefix(t, "xf:"):
+		case t == "da":
+			out = append(out, "du")
+		case strings.HasPrefix(t, "ro:") || strings.HasPrefix(t, "cp:") || strings.HasPrefix(t, "cps:"):
+			// the network stays (reads under another network are exercised by the exact lines)
+			p := strings.Split(t, ":")
+			p[len(p)-1] = "3652501241"
+			out = append(out, strings.Join(p, ":"))
+		default:
+			out = append(out, t)
+		}
+	}
+	return strings.Join(out, " ")
 }
